@@ -929,3 +929,92 @@ theorem flatten_map_inj {α β : Type} (f g : α → β) (per : List (List α))
     have := List.append_inj h (by simp)
     rw [this.1, ih this.2]
 end QM.C08
+
+namespace QM.C08
+variable {K : Type}
+section cols
+variable [Field K]
+
+theorem lsub_length (a b : List K) : (lsub a b).length = min a.length b.length := by simp [lsub]
+
+/-- C08.2 `matA_cols` (POVMT): `(m−1)·n` (flag) resp. `m·n` columns -/
+theorem povmt_cols' (flag : Bool) (r : K) (m : Nat) (rho : List K) (x : Nat) (a : List K) (b : K)
+    (hx : x < m) (h : povmtRow flag r m rho x = some (a, b)) :
+    a.length = (if flag then m - 1 else m) * rho.length := by
+  obtain ⟨m', rfl⟩ : ∃ m', m = m' + 1 := ⟨m - 1, by omega⟩
+  have hclen : (zeros (x * rho.length) ++ rho ++ (zeros ((m' + 1 - 1 - x) * rho.length) : List K)).length
+      = (m' + 1) * rho.length := by
+    simp only [List.length_append, zeros_length, Nat.add_sub_cancel]
+    have : m' + 1 = x + 1 + (m' - x) := by omega
+    conv_rhs => rw [this]
+    ring
+  cases flag with
+  | false =>
+    simp only [povmtRow, Bool.false_eq_true, if_false, Option.some.injEq, Prod.mk.injEq] at h
+    rw [← h.1, hclen]; simp
+  | true =>
+    simp only [povmtRow, if_true] at h
+    split at h
+    · rename_i x0 rest hcp
+      simp only [Option.some.injEq, Prod.mk.injEq] at h
+      rw [← h.1, lsub_length, tile_length, List.length_take, hclen, List.length_drop, hclen]
+      simp only [Nat.add_sub_cancel, if_true]
+      have e1 : (m' + 1) * rho.length - rho.length * m' = rho.length := by
+        rw [Nat.succ_mul, Nat.mul_comm m']; omega
+      rw [e1]
+      have e2 : min (rho.length * m') ((m' + 1) * rho.length) = rho.length * m' := by
+        apply Nat.min_eq_left; rw [Nat.succ_mul, Nat.mul_comm]; omega
+      rw [e2, Nat.mul_comm, Nat.min_self]
+    · cases h
+
+/-- C08.2 `matA_cols` (QMPT): every row built by `cqpt_to_cqmpt` has `m·n² − n` (flag) resp. `m·n²` entries -/
+theorem qmpt_cols' (flag : Bool) (m : Nat) (rho : List K) (povm : List (List K))
+    (rows : List (List K × K)) (hm : 0 < m) (hr : 0 < rho.length)
+    (hE : ∀ e ∈ povm, e.length = rho.length) (h : qmptSched flag m rho povm = some rows) :
+    ∀ ab ∈ rows, ab.1.length =
+      if flag then (m - 1) * (rho.length * rho.length) + (rho.length * rho.length - rho.length)
+      else m * (rho.length * rho.length) := by
+  set n := rho.length with hn
+  have hw : ∀ e ∈ povm, (outerFlat e rho).length = n * n := by
+    intro e he; rw [outerFlat_length, hE e he]
+  cases flag with
+  | false =>
+    simp only [qmptSched, cqptToCqmpt, Bool.false_eq_true, if_false, Option.some.injEq] at h
+    subst h
+    intro ab hab
+    simp only [List.mem_flatMap, List.mem_range, List.mem_map, cQpt] at hab
+    obtain ⟨k, hk, c, ⟨e, he, rfl⟩, rfl⟩ := hab
+    simp only [Bool.false_eq_true, if_false]
+    exact blockRow_length (n * n) m k _ hk (hw e he)
+  | true =>
+    obtain ⟨m', rfl⟩ : ∃ m', m = m' + 1 := ⟨m - 1, by omega⟩
+    simp only [qmptSched, cqptToCqmpt, if_true, Nat.add_sub_cancel, Option.bind_eq_bind,
+      Option.bind_eq_some_iff, Option.pure_def, Option.some.injEq] at h
+    obtain ⟨a1, ha1, rfl⟩ := h
+    intro ab hab
+    simp only [if_true, Nat.add_sub_cancel]
+    rw [List.mem_append] at hab
+    rcases hab with hab | hab
+    · simp only [List.mem_flatMap, List.mem_range, List.mem_map, cQpt] at hab
+      obtain ⟨k, hk, c, ⟨e, he, rfl⟩, rfl⟩ := hab
+      rw [List.length_append, blockRow_length (n * n) m' k _ hk (hw e he), zeros_length]
+    · unfold cQpt at ha1
+      rw [mapM_map_opt] at ha1
+      obtain ⟨i, hi, rfl⟩ := List.mem_iff_getElem.1 hab
+      have hlen := mapM_opt_length _ _ _ ha1
+      have hg := mapM_opt_getElem _ _ _ ha1 i (by rw [← hlen]; exact hi) hi
+      have he : povm[i]'(by rw [← hlen]; exact hi) ∈ povm := List.getElem_mem _
+      have hwl := hw _ he
+      unfold qmptLastRow at hg
+      split at hg
+      · rename_i c0 rest hc
+        simp only [Option.some.injEq] at hg
+        rw [← hg]
+        simp only [List.length_append, tile_length, lneg_length, List.length_take, zeros_length,
+          List.length_drop, Nat.add_sub_cancel, hwl]
+        have hnw : n ≤ n * n := Nat.le_mul_of_pos_left n hr
+        rw [Nat.min_eq_left hnw, Nat.add_sub_cancel' hnw]
+      · cases hg
+
+end cols
+end QM.C08
